@@ -171,6 +171,50 @@ def main(tier):
         pprog.load_dir(dh)
         chk.units += [u for u in pprog.units if u not in chk.units]
     argswap.rule(pprog, chk, "C12p", file_filter=("src/Variogram/", "src/Geometry/BiTargetCheck"), floor_n=4)
+    # C12s: a limit on the separation of a pair is applied to a sign-free quantity.  In the `isOK` of a pair checker a refusal `if (x > _limit)`
+    # whose `x` is a bare component of the increment between the two samples (signed: it changes sign with the order of the pair) keeps or rejects
+    # the pair according to which sample comes first; the component must go through ABS / sqrt / a square first.
+    from e1_paths import single_def
+
+    def _strip(e):
+        while e is not None and e["k"] in ("Cast", "Paren") and e.get("c"):
+            e = e["c"][0]
+        return e
+    ns = 0
+    for f in sorted(pprog.funcs, key=lambda x: (x.file, x.line)):
+        if f.body is None or f.short != "isOK" or not (f.cls or "").startswith("BiTargetCheck"):
+            continue
+        incr = {x["d"] for x in f.walk() if x["k"] == "VarDecl" and x.get("c") and x["c"][0] is not None and
+                any(z["k"] == "MCall" and (z.get("callee") or "").split("::")[-1] == "getIncrement" for z in walk(x["c"][0]))}
+        if not incr:
+            continue
+
+        def signed(e, depth=0):
+            e = _strip(e)
+            if e is None or depth > 3:
+                return False
+            if e["k"] in ("Index", "OpCall") and e.get("c") and _strip(e["c"][0]) is not None and _strip(e["c"][0]).get("d") in incr:
+                return True
+            if e["k"] == "DeclRefExpr" and e.get("dk") == "var":
+                dd = single_def(f, e["d"])
+                return dd is not None and signed(dd, depth + 1)
+            if e["k"] == "UnOp" and e.get("op") == "-":
+                return signed(e["c"][0], depth + 1)
+            return False
+        for x in f.walk():
+            if x["k"] != "BinOp" or x.get("op") not in (">", ">=", "<", "<=") or x["c"][0] is None or x["c"][1] is None:
+                continue
+            l, r = _strip(x["c"][0]), _strip(x["c"][1])
+            if r is None or r["k"] != "MemberExpr" or l is None or l["k"] not in ("DeclRefExpr", "Index", "OpCall", "UnOp"):
+                continue
+            ns += 1
+            bad = signed(l)
+            chk.analysed(f)
+            chk.ob("C12s", "%s: the limit `%s` is applied to a sign-free quantity" % (f.name, show(x)[:40]), f.loc(x), not bad,
+                   detail=None if not bad else "`%s` is a signed component of the increment between the two samples: the pair is kept or rejected "
+                   "according to which of its samples comes first (the count of pairs of a lag depends on the order of the samples)" % show(l)[:40],
+                   key="C12s|%s|%s" % (f.name, show(x)[:30]))
+    chk.floor("C12s", ns, 3)
     # C12k: the rank argument of a per-sample Db accessor comes from a loop over ALL the samples (c05_skip.rank_loop_rule)
     import c05_skip
     c05_skip.rank_loop_rule(prog, chk, "C12k", ("src/Variogram/",), 20)
